@@ -335,6 +335,25 @@ def call_real(ct, body, config=None, headers=None):
     return ("ok", args, files)
 
 
+def call_real_prepopulated(ct, body):
+    """The caller's dictionaries already hold values (query arguments, an earlier body): the body's values are added
+    behind them, for every encoding."""
+    from tornado import httputil
+    fresh = call_real(ct, body)
+    if fresh[0] != "ok":
+        return None
+    args = {k: [b"<query>"] for k in fresh[1]}
+    files = {}
+    try:
+        httputil.parse_body_arguments(ct, body, args, files)
+    except Exception as e:
+        return "raised %s" % type(e).__name__
+    for k, v in fresh[1].items():
+        if args.get(k) != [b"<query>"] + v:
+            return "arguments[%r] = %r, expected %r" % (k, args.get(k), [b"<query>"] + v)
+    return None
+
+
 def shape_ok(args, files):
     """Oracle-free invariant on a successful parse: documented value types."""
     from tornado import httputil
@@ -677,7 +696,7 @@ def fam_B(tier, i, n):
                              "tail": "crlf", "ct": "plain", "b": b}}
 
 
-C_NAMES = ["a", "b", "a\\", '"a"', "\u00e9;"]
+C_NAMES = ["a", "b", "a\\", '"a"', "\u00e9;", "\U0001F600x"]      # (the last: a character outside the BMP)
 
 
 def fam_C(tier, i, n):
@@ -790,7 +809,7 @@ M_CT_CHARS = ';="B \t,/m-'
 
 LIMIT_N = [0, 1, 2, 3, 7]
 LIMIT_H = [0, 8, 48, 64, 100, 200]
-LIMIT_PATHS = ["kw", "global", "direct"]
+LIMIT_PATHS = ["kw", "global", "direct", "global-direct"]
 
 
 # --------------------------------------------------------------------------
@@ -912,6 +931,14 @@ class C30(Check):
             if bad:
                 st.violation("shape:" + bad.split(" ")[0].split("[")[0],
                              "successful parse returned ill-typed data: " + bad,
+                             {"fam": "lossless", "case": case})
+                return
+        if res[0] == "ok" and res[1] and len(case["items"]) <= 2:
+            pre = call_real_prepopulated(enc[0], enc[1])
+            st.ev()
+            if pre:
+                st.violation("prepopulated-arguments:%s" % case["enc"],
+                             "the arguments dict already held a value under each name: " + pre,
                              {"fam": "lossless", "case": case})
                 return
         if ei is not None:
@@ -1037,6 +1064,14 @@ class C30(Check):
                     httputil.parse_body_arguments(ct, body, args, files)
                 finally:
                     httputil.set_parse_body_config(old)
+            elif path == "global-direct":
+                # the process-wide configuration also governs a direct call that passes no config of its own
+                old = httputil._DEFAULT_PARSE_BODY_CONFIG
+                httputil.set_parse_body_config(httputil.ParseBodyConfig(multipart=mcfg))
+                try:
+                    httputil.parse_multipart_form_data(boundary, body, args, files)
+                finally:
+                    httputil.set_parse_body_config(old)
             elif path == "direct":
                 httputil.parse_multipart_form_data(boundary, body, args, files, config=mcfg)
             elif path == "default":
@@ -1149,7 +1184,7 @@ class C30(Check):
             items = [["field", "a", b"x"]]
             if d["kind"] == "url":
                 ct, body = url_encode(items, URL_DEFAULT)
-                if d["path"] == "direct":
+                if d["path"] in ("direct", "global-direct"):
                     return
             else:
                 ct, body = mp_encode(items if d["kind"] == "mp-valid" else [], v)
